@@ -14,6 +14,11 @@ Variable tb : byte.
 Variable explicit : bool.
 Hypothesis lf_valid : forall d, fits d -> valid_len (lf d) (nlen d).
 Hypothesis tb_nonzero : tb <> x00.
+(* trailing elements: tags no component of any LDAP SEQUENCE uses (APPLICATION or PRIVATE class, or a
+   context-specific number above every defined one) *)
+Variable trail : nat -> list (tag * list byte).
+Definition unknown_tag (t : tag) : Prop := t_cls t = 1 \/ t_cls t = 3 \/ (t_cls t = 2 /\ 12 <= t_num t).
+Hypothesis trail_unknown : forall k x, In x (trail k) -> unknown_tag (fst x).
 
 Notation ptlv := (ptlv lf).
 Notation pw_int := (pw_int lf).
@@ -22,15 +27,16 @@ Notation pw_bool := (pw_bool lf tb).
 Notation pw_dflt := (pw_dflt lf tb explicit).
 Notation pw_oct := (pw_oct lf).
 Notation pw_opt_oct := (pw_opt_oct lf).
-Notation ppaged_value := (ppaged_value lf).
-Notation pcontrol_value := (pcontrol_value lf).
-Notation penc_control := (penc_control lf tb explicit).
-Notation penc_cred := (penc_cred lf).
-Notation penc_filter := (penc_filter lf tb explicit).
+Notation ppaged_value := (ppaged_value lf trail).
+Notation ptrail := (ptrail lf trail).
+Notation pcontrol_value := (pcontrol_value lf trail).
+Notation penc_control := (penc_control lf tb explicit trail).
+Notation penc_cred := (penc_cred lf trail).
+Notation penc_filter := (penc_filter lf tb explicit trail).
 Notation penc_result := (penc_result lf).
-Notation penc_partial_attr := (penc_partial_attr lf).
-Notation penc_op_inner := (penc_op_inner lf tb explicit).
-Notation penc_msg := (penc_msg lf tb explicit).
+Notation penc_partial_attr := (penc_partial_attr lf trail).
+Notation penc_op_inner := (penc_op_inner lf tb explicit trail).
+Notation penc_msg := (penc_msg lf tb explicit trail).
 
 
 Lemma fits_app_l a b : fits (a ++ b) -> fits a.
@@ -218,6 +224,63 @@ Proof. reflexivity. Qed.
 Lemma app_nil_end {A} (l : list A) : l = l ++ [].
 Proof. now rewrite app_nil_r. Qed.
 
+(* ---- trailing elements *)
+Lemma wf_unknown t : unknown_tag t -> wf_tag t.
+Proof. intros [H|[H|[H _]]]; split; rewrite H; try lia; intros E; vm_compute in E; discriminate. Qed.
+
+Lemma unknown_not_ctx t d n : unknown_tag t -> n < 12 -> is_ctx (phdr_of t d) n = false.
+Proof.
+  intros [H|[H|[H H2]]] Hn; unfold is_ctx, phdr_of; cbn [h_tag]; rewrite H; try reflexivity.
+  change (2 =? cls_context) with true. cbn [andb]. destruct (N.eqb_spec (t_num t) n); [lia|reflexivity].
+Qed.
+
+Lemma unknown_not_univ t d n : unknown_tag t ->
+  (t_cls (h_tag (phdr_of t d)) =? cls_universal) && (t_num (h_tag (phdr_of t d)) =? n) = false.
+Proof. intros [H|[H|[H _]]]; cbn [h_tag phdr_of]; rewrite H; reflexivity. Qed.
+
+Lemma nlen_ptlv t d : nlen (ptlv t d) = ident_octets t + nlen (lf d) + nlen d.
+Proof. unfold Peer.ptlv, ident_octets. rewrite !nlen_app. lia. Qed.
+
+Lemma skip_tlv t d rest : skip_value (ptlv t d ++ rest) (phdr_of t d) = rest.
+Proof.
+  unfold skip_value, phdr_of. cbn [h_hlen h_len].
+  replace (ident_octets t + nlen (lf d) + nlen d) with (nlen (ptlv t d)) by apply nlen_ptlv. apply drop_app_exact.
+Qed.
+
+Definition tr_enc (x : tag * list byte) : list byte := ptlv (fst x) (snd x).
+
+Lemma ptrail_eq k : ptrail k = flat_map tr_enc (trail k).
+Proof. reflexivity. Qed.
+
+Lemma tr_fits k x : fits (ptrail k) -> In x (trail k) -> fits (snd x).
+Proof. intros F H. rewrite ptrail_eq in F. apply (fits_tlv (fst x)). exact (fits_flat_map tr_enc _ x F H). Qed.
+
+(* what may follow the defined components: nothing, or an element with an unknown tag *)
+Lemma ptrail_cases k : fits (ptrail k) ->
+  ptrail k = [] \/ exists t d rest, ptrail k = ptlv t d ++ rest /\ unknown_tag t /\ fits d.
+Proof.
+  intros F. rewrite ptrail_eq in *. destruct (trail k) as [|x xs] eqn:E; [now left|]. right.
+  exists (fst x), (snd x), (flat_map tr_enc xs). cbn [flat_map]. split; [reflexivity|]. split.
+  - apply (trail_unknown k). rewrite E. now left.
+  - cbn [flat_map] in F. apply fits_app_l in F. now apply fits_tlv in F.
+Qed.
+
+(* a loop body that skips elements it does not recognise runs through the trailing elements *)
+Lemma loop_skip_trail {S} (body : S -> reader -> res (S * reader)) k st tail fuel :
+  fits (ptrail k) ->
+  (forall t d st rest, unknown_tag t -> fits d -> body st (ptlv t d ++ rest) = Ok (st, rest)) ->
+  loop (length (trail k) + fuel) body st (ptrail k ++ tail) = loop fuel body st tail.
+Proof.
+  intros F Hb. rewrite ptrail_eq.
+  rewrite (loop_items_state tr_enc (fun (s : S) _ => s) body).
+  - f_equal. clear. induction (trail k) as [|x xs IH]; [reflexivity|exact IH].
+  - intros x _. apply tlv_nonempty.
+  - intros s x rest Hx. apply Hb; [now apply (trail_unknown k)|now apply (tr_fits k)].
+Qed.
+
+Lemma ptrail_len k : (length (trail k) <= length (ptrail k))%nat.
+Proof. rewrite ptrail_eq. apply length_flat_map_ge. intros x _. apply tlv_nonempty. Qed.
+
 (* ---- controls *)
 
 
@@ -259,8 +322,8 @@ Proof. reflexivity. Qed.
    decoder, applied to (criticality, value).  Criticality may be absent (FALSE), an explicit FALSE, or
    TRUE written as any non-zero octet. *)
 Lemma control_tail {B} (crit : bool) (value : option octets) (k : bool -> option octets -> res B) :
-  fits (pw_dflt u_bool crit ++ pw_opt_oct u_oct value) ->
-  (let cr := pw_dflt u_bool crit ++ pw_opt_oct u_oct value in
+  fits (pw_dflt u_bool crit ++ pw_opt_oct u_oct value ++ ptrail 0) ->
+  (let cr := pw_dflt u_bool crit ++ pw_opt_oct u_oct value ++ ptrail 0 in
    nh <- (match cr with [] => Ok (@None header) | _ => h <- peek_header cr ;; Ok (Some h) end) ;;
    let is_univ (h : option header) (n : N) :=
      match h with
@@ -279,25 +342,34 @@ Lemma control_tail {B} (crit : bool) (value : option octets) (k : bool -> option
    k crit' v) = k crit value.
 Proof.
   intros F. cbv zeta.
+  assert (Ft : fits (ptrail 0)) by (apply fits_app_r in F; now apply fits_app_r in F).
   unfold Peer.pw_dflt, Peer.pw_bool in *.
   destruct crit; [|destruct explicit]; destruct value as [v|]; unfold Peer.pw_opt_oct, Peer.pw_oct in *; cbn [app] in *; sat_fits.
   - rewrite match_app_nonempty by side. rewrite peek_tlv by side. cbn [bind].
     rewrite is_univ_bool. rewrite (read_bool_hdr u_bool true) by side. cbn [bind].
-    rewrite (app_nil_end (ptlv u_oct v)). rewrite match_app_nonempty by side. rewrite peek_tlv by side. cbn [bind].
+    rewrite match_app_nonempty by side. rewrite peek_tlv by side. cbn [bind].
     rewrite is_univ_oct. rewrite read_oct_hdr by side. reflexivity.
   - rewrite match_app_nonempty by side. rewrite peek_tlv by side. cbn [bind].
     rewrite is_univ_bool. rewrite (read_bool_hdr u_bool true) by side. cbn [bind].
-    rewrite is_univ_bool_oct. reflexivity.
+    destruct (ptrail_cases 0 Ft) as [E|(t & d & rest & E & U & Fd)]; rewrite E.
+    + cbn [bind]. rewrite is_univ_bool_oct. reflexivity.
+    + rewrite match_app_nonempty by side. rewrite peek_tlv by (auto using wf_unknown). cbn [bind].
+      rewrite unknown_not_univ by assumption. reflexivity.
   - rewrite match_app_nonempty by side. rewrite peek_tlv by side. cbn [bind].
     rewrite is_univ_bool. rewrite (read_bool_hdr u_bool false) by side. cbn [bind].
-    rewrite (app_nil_end (ptlv u_oct v)). rewrite match_app_nonempty by side. rewrite peek_tlv by side. cbn [bind].
+    rewrite match_app_nonempty by side. rewrite peek_tlv by side. cbn [bind].
     rewrite is_univ_oct. rewrite read_oct_hdr by side. reflexivity.
   - rewrite match_app_nonempty by side. rewrite peek_tlv by side. cbn [bind].
     rewrite is_univ_bool. rewrite (read_bool_hdr u_bool false) by side. cbn [bind].
-    rewrite is_univ_bool_oct. reflexivity.
-  - rewrite (app_nil_end (ptlv u_oct v)). rewrite match_app_nonempty by side. rewrite peek_tlv by side. cbn [bind].
+    destruct (ptrail_cases 0 Ft) as [E|(t & d & rest & E & U & Fd)]; rewrite E.
+    + cbn [bind]. rewrite is_univ_bool_oct. reflexivity.
+    + rewrite match_app_nonempty by side. rewrite peek_tlv by (auto using wf_unknown). cbn [bind].
+      rewrite unknown_not_univ by assumption. reflexivity.
+  - rewrite match_app_nonempty by side. rewrite peek_tlv by side. cbn [bind].
     rewrite is_univ_oct_bool. cbn [bind]. rewrite is_univ_oct. rewrite read_oct_hdr by side. reflexivity.
-  - reflexivity.
+  - destruct (ptrail_cases 0 Ft) as [E|(t & d & rest & E & U & Fd)]; rewrite E; [reflexivity|].
+    rewrite match_app_nonempty by side. rewrite peek_tlv by (auto using wf_unknown). cbn [bind].
+    rewrite unknown_not_univ by assumption. cbn [bind]. rewrite unknown_not_univ by assumption. reflexivity.
 Qed.
 
 Lemma paged_rt crit size cookie :
@@ -307,7 +379,7 @@ Proof.
   intros F. unfold unpack_paged, Peer.ppaged_value in *. unfold_w. sat_fits.
   rewrite (app_nil_end (ptlv u_seq _)). rewrite read_seq_dflt by side. cbn [bind].
   rewrite read_int_dflt by side. cbn [bind].
-  rewrite (app_nil_end (ptlv u_oct cookie)). rewrite read_oct_dflt by side. reflexivity.
+  rewrite read_oct_dflt by side. reflexivity.
 Qed.
 
 Lemma control_rt c rest :
@@ -338,7 +410,7 @@ Proof.
     apply orb_false_iff in K as [K K3]. apply orb_false_iff in K as [K1 K2].
     rewrite K1, K2, K3. reflexivity.
   - rewrite O1. rewrite paged_rt; [reflexivity|].
-    cbn [Peer.pcontrol_value] in F2. unfold Peer.pw_opt_oct, Peer.pw_oct in F2. apply fits_app_r in F2. now apply fits_tlv in F2.
+    cbn [Peer.pcontrol_value] in F2. unfold Peer.pw_opt_oct, Peer.pw_oct in F2. apply fits_app_r in F2. apply fits_app_l in F2. now apply fits_tlv in F2.
   - rewrite O4, O5, O6. reflexivity.
   - rewrite O2, O3. reflexivity.
 Qed.
@@ -366,12 +438,15 @@ Proof.
   - rewrite peek_tlv by side. cbn [bind]. rewrite hdr_tag. cbn [t_cls t_num ctx]. decide_closed.
     rewrite read_seq_tag by side. cbn [bind].
     rewrite read_str_dflt by side. cbn [bind].
-    unfold_w. rewrite (app_nil_end (ptlv u_oct cr)). rewrite match_app_nonempty by side.
+    unfold_w. rewrite match_app_nonempty by side.
     rewrite peek_tlv by side. cbn [bind]. rewrite hdr_tag. cbn [t_cls t_num u_oct universal]. decide_closed.
     rewrite read_oct_hdr by side. reflexivity.
   - rewrite peek_tlv by side. cbn [bind]. rewrite hdr_tag. cbn [t_cls t_num ctx]. decide_closed.
     rewrite read_seq_tag by side. cbn [bind].
-    rewrite read_str_dflt by side. reflexivity.
+    rewrite read_str_dflt by side. cbn [bind].
+    match goal with H : fits (ptrail 1) |- _ => destruct (ptrail_cases 1 H) as [E|(t & d & rest' & E & U & Fd)] end; rewrite E; [reflexivity|].
+    rewrite match_app_nonempty by side. rewrite peek_tlv by (auto using wf_unknown). cbn [bind].
+    rewrite unknown_not_univ by assumption. reflexivity.
 Qed.
 
 (* ---- LDAPResult *)
@@ -443,7 +518,7 @@ Proof.
   intros U F. unfold_w. sat_fits.
   rewrite read_seq_dflt by side. cbn [bind].
   rewrite read_str_dflt by side. cbn [bind].
-  rewrite (app_nil_end (ptlv u_set _)). rewrite read_set_dflt by side. cbn [bind].
+  rewrite read_set_dflt by side. cbn [bind].
   rewrite octs_rt by assumption. reflexivity.
 Qed.
 
@@ -605,23 +680,28 @@ Qed.
 Lemma tlv_len_pos t (x : octets) : (1 <= length (ptlv t x))%nat.
 Proof. pose proof (tlv_nonempty t x). destruct (ptlv t x); [congruence|cbn; lia]. Qed.
 
+Lemma ext_body_skip st t d rest : unknown_tag t -> fits d -> ext_body st (ptlv t d ++ rest) = Ok (st, rest).
+Proof.
+  intros U F. destruct st as [[[rule attr] v] dn]. unfold ext_body. rewrite peek_tlv by (auto using wf_unknown). cbn [bind].
+  rewrite !unknown_not_ctx by (assumption || reflexivity). now rewrite skip_tlv.
+Qed.
+
 Lemma ext_loop_rt rule attr v (dn : bool) :
   (match rule with Some r => utf8_valid r = true | None => True end) ->
   (match attr with Some r => utf8_valid r = true | None => True end) ->
   let input := pw_opt_oct (ctx 1 false) rule ++ pw_opt_oct (ctx 2 false) attr ++ pw_oct (ctx 3 false) v
-               ++ pw_dflt (ctx 4 false) dn in
+               ++ pw_dflt (ctx 4 false) dn ++ ptrail 14 in
   fits input ->
   while_reader ext_body (None, None, [], false) input = Ok (rule, attr, v, dn).
 Proof.
   intros Ur Ua input F. unfold while_reader. unfold input in *. clear input. unfold Peer.pw_dflt in *.
+  assert (Ft : fits (ptrail 14)) by (do 4 apply fits_app_r in F; exact F).
+  pose proof (ptrail_len 14) as Hlen.
   destruct rule as [r|]; destruct attr as [a|]; (destruct dn; [|destruct explicit]); unfold_w; cbn [app] in *; sat_fits.
   all: eapply loop_from_exact;
-       [ repeat first
-           [ erewrite loop_step; [|apply app_tlv_nonempty|first [apply ext_body_rule|apply ext_body_attr|apply ext_body_val|apply ext_body_dn|apply ext_body_dn_false]; side]
-           | rewrite (app_nil_end (ptlv (ctx 3 false) v)) at 1
-           | rewrite (app_nil_end (ptlv (ctx 4 false) [tb])) at 1
-           | rewrite (app_nil_end (ptlv (ctx 4 false) [x00])) at 1 ];
-         apply (loop_nil 0%nat)
+       [ repeat (erewrite loop_step; [|apply app_tlv_nonempty|first [apply ext_body_rule|apply ext_body_attr|apply ext_body_val|apply ext_body_dn|apply ext_body_dn_false]; side]);
+         rewrite (app_nil_end (ptrail 14));
+         erewrite (loop_skip_trail ext_body 14 _ [] 0%nat); [apply (loop_nil 0%nat)|exact Ft|intros; now apply ext_body_skip]
        | rewrite ?app_length;
          repeat match goal with |- context [length (ptlv ?t ?x)] =>
                   lazymatch goal with
@@ -632,13 +712,13 @@ Proof.
 Qed.
 
 Lemma ava_rt id a v rest :
-  utf8_valid a = true -> fits (ptlv (ctx id true) (ptlv u_oct a ++ ptlv u_oct v)) ->
-  unpack_ava id (ptlv (ctx id true) (ptlv u_oct a ++ ptlv u_oct v) ++ rest) = Ok (a, v, rest).
+  utf8_valid a = true -> fits (ptlv (ctx id true) (ptlv u_oct a ++ ptlv u_oct v ++ ptrail 11)) ->
+  unpack_ava id (ptlv (ctx id true) (ptlv u_oct a ++ ptlv u_oct v ++ ptrail 11) ++ rest) = Ok (a, v, rest).
 Proof.
   intros U F. unfold unpack_ava. sat_fits.
   rewrite read_seq_tag by side. cbn [bind].
   rewrite read_str_dflt by side. cbn [bind].
-  rewrite (app_nil_end (ptlv u_oct v)). rewrite read_oct_dflt by side. reflexivity.
+  rewrite read_oct_dflt by side. reflexivity.
 Qed.
 
 Lemma substrings_rt a ini any fin rest :
@@ -647,10 +727,10 @@ Lemma substrings_rt a ini any fin rest :
 Proof.
   intros U F. unfold unpack_substrings. cbn [Peer.penc_filter] in *. unfold Peer.pw_oct at 1. unfold Peer.pw_oct at 1 in F. unfold cat in *.
   pose proof (fits_tlv _ _ F) as F0. pose proof (fits_app_l _ _ F0) as F1. apply fits_tlv in F1.
-  pose proof (fits_app_r _ _ F0) as F2. apply fits_tlv in F2.
+  pose proof (fits_app_r _ _ F0) as F2. apply fits_app_l in F2. apply fits_tlv in F2.
   rewrite read_seq_tag by side. cbn [bind].
   rewrite read_str_dflt by side. cbn [bind].
-  rewrite (app_nil_end (ptlv u_seq _)). rewrite read_seq_dflt by side. cbn [bind].
+  rewrite read_seq_dflt by side. cbn [bind].
   change (while_reader _ (None, [], None)) with (while_reader sub_body (None, [], None)).
   change (fun x => pw_oct (ctx 1 false) x) with (ptlv (ctx 1 false)) in *.
   rewrite sub_loop_rt by exact F2. reflexivity.
@@ -695,7 +775,7 @@ Proof.
     + apply Many; auto. intros g Hg. cbn [fdepth] in Hd. pose proof (fdepth_in g fs Hg). lia.
     + pose proof (fits_tlv _ _ F) as Fc.
       rewrite read_seq_tag by side. cbn [bind].
-      rewrite (app_nil_end (penc_filter f)). rewrite IH; [reflexivity|cbn [fdepth] in Hd; lia|assumption|assumption].
+      rewrite IH; [reflexivity|cbn [fdepth] in Hd; lia|assumption|now apply fits_app_l in Fc].
     + unfold Peer.pw_oct in *. rewrite ava_rt by assumption. reflexivity.
     + change (ptlv (ctx fid_substrings true) _) with (penc_filter (FSub attr initial any final)).
       apply substrings_rt; assumption.
@@ -750,16 +830,31 @@ Proof.
   unfold is_ctx, phdr_of. cbn [h_tag t_cls t_num ctx]. destruct (N.eqb_spec n 3); [congruence|]. apply andb_false_r.
 Qed.
 
-Ltac opt_loop lem :=
+Lemma nrn_trail k : fits (ptrail k) -> pnot_referral_next (ptrail k).
+Proof.
+  intros F. destruct (ptrail_cases k F) as [->|(t & d & rest & -> & U & Fd)]; [now left|].
+  right. exists t, d, rest. split; [reflexivity|]. split; [now apply wf_unknown|]. split; [assumption|apply unknown_not_ctx; [assumption|reflexivity]].
+Qed.
+
+Ltac len_bound k :=
+  rewrite ?app_length; cbn [length]; pose proof (ptrail_len k);
+  repeat match goal with |- context [length (ptlv ?t ?x)] =>
+           lazymatch goal with
+           | H : (1 <= length (ptlv t x))%nat |- _ => fail
+           | _ => pose proof (tlv_len_pos t x)
+           end
+         end; lia.
+
+Ltac skip_unknown :=
+  intros; rewrite peek_tlv by (auto using wf_unknown); cbn [bind]; rewrite !unknown_not_ctx by (assumption || reflexivity); now rewrite skip_tlv.
+
+(* a loop that picks up optional components and skips whatever it does not recognise *)
+Ltac opt_loop k lem :=
   unfold while_reader at 1; eapply loop_from_exact;
-  [ repeat (erewrite loop_step; [|apply app_tlv_nonempty|cbv beta; lem]); apply (loop_nil 0%nat)
-  | rewrite ?app_length; cbn [length];
-    repeat match goal with |- context [length (ptlv ?t ?x)] =>
-             lazymatch goal with
-             | H : (1 <= length (ptlv t x))%nat |- _ => fail
-             | _ => pose proof (tlv_len_pos t x)
-             end
-           end; lia ].
+  [ repeat (erewrite loop_step; [|apply app_tlv_nonempty|cbv beta; lem]);
+    rewrite (app_nil_end (ptrail k));
+    erewrite (loop_skip_trail _ k _ [] 0%nat); [apply (loop_nil 0%nat)|assumption|skip_unknown]
+  | len_bound k ].
 
 Theorem op_rt d o : wf_op d o -> fits (penc_op_inner o) -> unpack_op d (op_tag_number o) (penc_op_inner o) = Ok o.
 Proof.
@@ -769,18 +864,21 @@ Proof.
     destruct W as [U Wc]. unfold_w. sat_fits.
     rewrite read_int_dflt by side. cbn [bind].
     rewrite read_str_dflt by side. cbn [bind].
-    rewrite (app_nil_end (penc_cred auth)). rewrite cred_rt by assumption. reflexivity.
+    rewrite cred_rt by assumption. reflexivity.
   - (* BindResponse *)
     destruct sasl as [v|]; unfold_w; cbn [app] in *; sat_fits.
-    + rewrite result_rt; [|assumption|assumption|rewrite (app_nil_end (ptlv _ v)); apply nrn_ctx; [discriminate|assumption]].
+    + rewrite result_rt; [|assumption|assumption|apply nrn_ctx; [discriminate|assumption]].
       cbn [bind].
-      rewrite (app_nil_end (ptlv (ctx 7 false) v)).
       match goal with |- context [while_reader ?b None ?r] =>
         assert (E : while_reader b None r = Ok (Some v)) end.
-      { opt_loop ltac:(rewrite peek_tlv by side; cbn [bind]; unfold is_ctx; rewrite hdr_tag; cbn [t_cls t_num ctx];
+      { opt_loop 3%nat ltac:(rewrite peek_tlv by side; cbn [bind]; unfold is_ctx; rewrite hdr_tag; cbn [t_cls t_num ctx];
                        decide_closed; rewrite read_oct_hdr by side; reflexivity). }
       rewrite E. reflexivity.
-    + rewrite app_nil_r in *. rewrite (app_nil_end (penc_result res)). rewrite result_rt by (auto using nrn_nil). reflexivity.
+    + rewrite result_rt; [|assumption|assumption|now apply nrn_trail]. cbn [bind].
+      match goal with |- context [while_reader ?b None ?r] =>
+        assert (E : while_reader b None r = Ok None) end.
+      { opt_loop 3%nat ltac:(fail). }
+      rewrite E. reflexivity.
   - reflexivity.
   - (* SearchRequest *)
     destruct W as (Ub & Es & Ed & Wf & Hd & Ua). unfold_w. sat_fits.
@@ -791,58 +889,60 @@ Proof.
     rewrite read_int_dflt by side. cbn [bind].
     rewrite read_bool_dflt. cbn [bind].
     rewrite filter_rt by assumption. cbn [bind].
-    rewrite (app_nil_end (ptlv u_seq _)). rewrite read_seq_dflt by side. cbn [bind].
+    rewrite read_seq_dflt by side. cbn [bind].
     rewrite strs_rt by assumption. cbn [bind app]. unfold dec_str. rewrite Ub. reflexivity.
   - (* SearchResultEntry *)
     destruct W as (Un & Wa). unfold_w. sat_fits.
     rewrite read_str_dflt by side. cbn [bind].
-    rewrite (app_nil_end (ptlv u_seq _)). rewrite read_seq_dflt by side. cbn [bind].
+    rewrite read_seq_dflt by side. cbn [bind].
     change (flat_map penc_partial_attr attrs) with (cat penc_partial_attr attrs).
     rewrite (while_reader_items penc_partial_attr unpack_partial_attr attrs []).
     + reflexivity.
     + intros x _. apply tlv_nonempty.
     + intros x rest Hx. rewrite Forall_forall in Wa. apply pa_rt; [now apply Wa|]. eapply fits_flat_map; eauto.
   - (* SearchResultDone *)
-    rewrite (app_nil_end (penc_result res)). rewrite result_rt by (auto using nrn_nil). reflexivity.
+    sat_fits. rewrite result_rt; [reflexivity|assumption|assumption|now apply nrn_trail].
   - (* SearchResultReference *)
     unfold_w. rewrite strs_rt by assumption. reflexivity.
   - (* ExtendedRequest *)
     destruct value as [v|]; unfold_w; cbn [app] in *; sat_fits.
     + rewrite read_str_tag by side. cbn [bind].
-      rewrite (app_nil_end (ptlv (ctx 1 false) v)).
       match goal with |- context [while_reader ?b None ?r] =>
         assert (E : while_reader b None r = Ok (Some v)) end.
-      { opt_loop ltac:(rewrite peek_tlv by side; cbn [bind]; unfold is_ctx; rewrite hdr_tag; cbn [t_cls t_num ctx];
+      { opt_loop 8%nat ltac:(rewrite peek_tlv by side; cbn [bind]; unfold is_ctx; rewrite hdr_tag; cbn [t_cls t_num ctx];
                        decide_closed; rewrite read_oct_hdr by side; reflexivity). }
       rewrite E. reflexivity.
-    + rewrite read_str_tag by side. reflexivity.
+    + rewrite read_str_tag by side. cbn [bind].
+      match goal with |- context [while_reader ?b None ?r] =>
+        assert (E : while_reader b None r = Ok None) end.
+      { opt_loop 8%nat ltac:(fail). }
+      rewrite E. reflexivity.
   - (* ExtendedResponse *)
     destruct W as (Wr & Un).
     destruct name as [n|]; destruct value as [v|]; unfold_w; cbn [app] in *; sat_fits.
     + rewrite result_rt; [|assumption|assumption|apply nrn_ctx; [discriminate|assumption]]. cbn [bind].
-      rewrite (app_nil_end (ptlv (ctx 11 false) v)).
       match goal with |- context [while_reader ?b (None, None) ?r] =>
         assert (E : while_reader b (None, None) r = Ok (Some n, Some v)) end.
-      { opt_loop ltac:(rewrite peek_tlv by side; cbn [bind]; unfold is_ctx; rewrite hdr_tag; cbn [t_cls t_num ctx];
+      { opt_loop 9%nat ltac:(rewrite peek_tlv by side; cbn [bind]; unfold is_ctx; rewrite hdr_tag; cbn [t_cls t_num ctx];
                        decide_closed; first [rewrite read_str_hdr by side|rewrite read_oct_hdr by side]; reflexivity). }
       rewrite E. reflexivity.
-    + rewrite app_nil_r in *.
-      rewrite result_rt; [|assumption|assumption|rewrite (app_nil_end (ptlv _ n)); apply nrn_ctx; [discriminate|assumption]]. cbn [bind].
-      rewrite (app_nil_end (ptlv (ctx 10 false) n)).
+    + rewrite result_rt; [|assumption|assumption|apply nrn_ctx; [discriminate|assumption]]. cbn [bind].
       match goal with |- context [while_reader ?b (None, None) ?r] =>
         assert (E : while_reader b (None, None) r = Ok (Some n, None)) end.
-      { opt_loop ltac:(rewrite peek_tlv by side; cbn [bind]; unfold is_ctx; rewrite hdr_tag; cbn [t_cls t_num ctx];
+      { opt_loop 9%nat ltac:(rewrite peek_tlv by side; cbn [bind]; unfold is_ctx; rewrite hdr_tag; cbn [t_cls t_num ctx];
                        decide_closed; first [rewrite read_str_hdr by side|rewrite read_oct_hdr by side]; reflexivity). }
       rewrite E. reflexivity.
-    + rewrite result_rt; [|assumption|assumption|rewrite (app_nil_end (ptlv _ v)); apply nrn_ctx; [discriminate|assumption]]. cbn [bind].
-      rewrite (app_nil_end (ptlv (ctx 11 false) v)).
+    + rewrite result_rt; [|assumption|assumption|apply nrn_ctx; [discriminate|assumption]]. cbn [bind].
       match goal with |- context [while_reader ?b (None, None) ?r] =>
         assert (E : while_reader b (None, None) r = Ok (None, Some v)) end.
-      { opt_loop ltac:(rewrite peek_tlv by side; cbn [bind]; unfold is_ctx; rewrite hdr_tag; cbn [t_cls t_num ctx];
+      { opt_loop 9%nat ltac:(rewrite peek_tlv by side; cbn [bind]; unfold is_ctx; rewrite hdr_tag; cbn [t_cls t_num ctx];
                        decide_closed; first [rewrite read_str_hdr by side|rewrite read_oct_hdr by side]; reflexivity). }
       rewrite E. reflexivity.
-    + rewrite app_nil_r in *. rewrite (app_nil_end (penc_result res)).
-      rewrite result_rt by (auto using nrn_nil). reflexivity.
+    + rewrite result_rt; [|assumption|assumption|now apply nrn_trail]. cbn [bind].
+      match goal with |- context [while_reader ?b (None, None) ?r] =>
+        assert (E : while_reader b (None, None) r = Ok (None, None)) end.
+      { opt_loop 9%nat ltac:(fail). }
+      rewrite E. reflexivity.
 Qed.
 
 (* ---- the whole message *)
@@ -863,7 +963,8 @@ Proof. unfold Peer.penc_control. apply tlv_nonempty. Qed.
 Theorem msg_value_rt d m :
   pwf_msg d m ->
   let content := pw_int (m_id m) ++ ptlv (app_tag (op_tag_number (m_op m))) (penc_op_inner (m_op m))
-                 ++ match m_controls m with [] => [] | cs => ptlv (ctx 0 true) (cat penc_control cs) end in
+                 ++ match m_controls m with [] => [] | cs => ptlv (ctx 0 true) (cat penc_control cs) end
+                 ++ ptrail 10 in
   unpack_message_value d content = Ok (pnorm_msg m).
 Proof.
   intros (Wo & Wc & F). destruct m as [id o cs]. cbn [m_id m_op m_controls] in *. cbv zeta.
@@ -871,23 +972,25 @@ Proof.
   unfold unpack_message_value. unfold Peer.pw_int in *.
   pose proof (fits_app_l _ _ F) as F1. apply fits_tlv in F1.
   pose proof (fits_app_r _ _ F) as F2. pose proof (fits_app_l _ _ F2) as F3. apply fits_tlv in F3.
-  pose proof (fits_app_r _ _ F2) as F4.
+  pose proof (fits_app_r _ _ F2) as F4. pose proof (fits_app_r _ _ F4) as Ft.
   rewrite read_int_dflt by side. cbn [bind].
   rewrite peek_tlv by side. cbn [bind].
-  rewrite hdr_tag. cbn [t_cls t_num app_tag]. 
+  rewrite hdr_tag. cbn [t_cls t_num app_tag].
   assert (Ea : (cls_application =? cls_application) = true) by reflexivity. rewrite Ea. cbn [negb].
   rewrite op_tag_known. cbn [negb].
   rewrite read_seq_hdr by side. cbn [bind].
   rewrite op_rt by assumption.
   destruct cs as [|c0 cs0].
-  - cbn [while_reader loop length bind fst snd map]. unfold pnorm_msg. cbn [m_id m_op m_controls map].
-    destruct o; reflexivity.
+  - cbn [app].
+    match goal with |- context [while_reader ?b ([], None) ?r] =>
+      assert (E : while_reader b ([], None) r = Ok ([], None)) end.
+    { opt_loop 10%nat ltac:(fail). }
+    rewrite E. cbn [bind fst snd]. unfold pnorm_msg. cbn [m_id m_op m_controls map]. destruct o; reflexivity.
   - set (cs := c0 :: cs0) in *.
-    assert (F5 : fits (cat penc_control cs)) by now apply fits_tlv in F4.
-    rewrite (app_nil_end (ptlv (ctx 0 true) _)).
+    assert (F5 : fits (cat penc_control cs)) by (apply fits_app_l in F4; now apply fits_tlv in F4).
     match goal with |- context [while_reader ?b ([], None) ?r] =>
       assert (E : while_reader b ([], None) r = Ok (map pnorm_control cs, None)) end.
-    { opt_loop ltac:(rewrite peek_tlv by side; cbn [bind]; unfold is_ctx; rewrite hdr_tag; cbn [t_cls t_num ctx];
+    { opt_loop 10%nat ltac:(rewrite peek_tlv by side; cbn [bind]; unfold is_ctx; rewrite hdr_tag; cbn [t_cls t_num ctx];
                      decide_closed; rewrite read_seq_hdr by side; cbn [bind fst snd];
                      rewrite (while_reader_items_map penc_control pnorm_control unpack_control cs []);
                      [reflexivity
@@ -905,18 +1008,6 @@ Proof.
   rewrite (msg_value_rt d m W). reflexivity.
 Qed.
 
-(* re-encoding the decoded message reproduces the same octets *)
-Lemma enc_norm_control c : penc_control (pnorm_control c) = penc_control c.
-Proof. destruct c; reflexivity. Qed.
-
-Theorem enc_norm_msg m : penc_msg (pnorm_msg m) = penc_msg m.
-Proof.
-  unfold Peer.penc_msg, pnorm_msg. cbn [m_id m_op m_controls].
-  destruct (m_controls m) as [|c cs]; [reflexivity|]. cbn [map].
-  f_equal. f_equal. f_equal. f_equal. unfold cat. cbn [flat_map]. rewrite enc_norm_control. f_equal.
-  induction cs as [|x xs IH]; cbn [map flat_map]; [reflexivity|]. now rewrite enc_norm_control, IH.
-Qed.
-
 End Lenient.
 
 (* ---- C04: what the decoder returns for a peer's encoding is what it returns for the library's own *)
@@ -927,7 +1018,7 @@ Definition erase_raw (c : control) : control :=
   end.
 Definition erase_raw_msg (m : msg) : msg := mkMsg (m_id m) (m_op m) (map erase_raw (m_controls m)).
 
-Lemma erase_pnorm lf m : erase_raw_msg (pnorm_msg lf m) = erase_raw_msg m.
+Lemma erase_pnorm lf trail m : erase_raw_msg (pnorm_msg lf trail m) = erase_raw_msg m.
 Proof.
   unfold erase_raw_msg, pnorm_msg. cbn [m_id m_op m_controls]. f_equal.
   rewrite map_map. apply map_ext. intros c. destruct c; reflexivity.
@@ -938,16 +1029,17 @@ Proof.
   rewrite map_map. apply map_ext. intros c. destruct c; reflexivity.
 Qed.
 
-Theorem peer_encoding_decodes_alike lf tb explicit d m rest rest' :
+Theorem peer_encoding_decodes_alike lf tb explicit trail d m rest rest' :
   (forall c, fits c -> valid_len (lf c) (nlen c)) -> tb <> x00 ->
-  pwf_msg lf tb explicit d m -> wf_msg d m ->
+  (forall k x, In x (trail k) -> unknown_tag (fst x)) ->
+  pwf_msg lf tb explicit trail d m -> wf_msg d m ->
   exists v v',
-    unpack_message d (penc_msg lf tb explicit m ++ rest) = Ok (v, rest) /\
+    unpack_message d (penc_msg lf tb explicit trail m ++ rest) = Ok (v, rest) /\
     unpack_message d (enc_msg m ++ rest') = Ok (v', rest') /\
     erase_raw_msg v = erase_raw_msg v' /\ erase_raw_msg v = erase_raw_msg m.
 Proof.
-  intros HL HT PW W. exists (pnorm_msg lf m), (norm_msg m).
-  split; [exact (msg_rt lf tb explicit HL HT d m rest PW)|].
+  intros HL HT HU PW W. exists (pnorm_msg lf trail m), (norm_msg m).
+  split; [exact (msg_rt lf tb explicit HL HT trail HU d m rest PW)|].
   split; [exact (RoundTrip.msg_rt d m rest' W)|].
   rewrite erase_pnorm, erase_norm. split; reflexivity.
 Qed.
